@@ -260,7 +260,7 @@ func (fr *Frame) enterLoop(li *loopInfo, st *State) *State {
 		env := fr.specEnv(st)
 		for k, inv := range invs {
 			g := env.evalBool(inv.Expr)
-			fr.oblige(lname+".inv.init", k+1, "", inv.Tags, st, g, "loop invariant holds on entry: "+inv.Text, pos)
+			fr.obligeSplit(lname+".inv.init", k+1, "", inv.Tags, st, g, "loop invariant holds on entry: "+inv.Text, pos)
 		}
 	}
 	myPre := fr.loopPre
@@ -311,7 +311,7 @@ func (fr *Frame) backEdge(li *loopInfo, st *State, from *ssa.BasicBlock) {
 	}
 	for k, inv := range invs {
 		g := env.evalBool(inv.Expr)
-		fr.oblige(lname+".inv.preserve", k+1, suffix, inv.Tags, st, g, "loop invariant is preserved: "+inv.Text, pos)
+		fr.obligeSplit(lname+".inv.preserve", k+1, suffix, inv.Tags, st, g, "loop invariant is preserved: "+inv.Text, pos)
 	}
 	if li.hasMod && li.headState != nil {
 		fr.frameCheck(lname+".frame", li.headState, st, li.modLocs, nil, pos, suffix)
